@@ -1,2 +1,2 @@
 # list of harness binaries (name[-variant]); see Makefile
-HARNESSES := h_numbers
+HARNESSES := h_numbers h_wto h_patricia h_scalar h_fwd-interval
